@@ -2,6 +2,9 @@
 
    classify <kind>                        →  <status> <label-hex> relay|generated
    stream  fault=… id=… kind=… up=… uptls=… close=… minor=… head=… framing=… body=…   →  <obs>
+   hstream fault=… id=… …                 →  <obs>   the same exchange through the handler variant (`handlerStream`)
+   label   <addr-hex>                     →  <hex>   `addr2Host`: the `host` label of the dialer's metrics
+   utf8    <hex>                          →  0|1     `validUTF8` (= `utf8.ValidString`)
    holds   id=… kind=… … obs=<obs with , for space>                   →  true | false <reason>
    loop    <o|c|x,…>                      →  closed <n> | open <errorsN>
    h2err   <dial-failed|dial-timeout|tls-failed|eof|bad-preface>      →  o|c|x
@@ -200,6 +203,18 @@ def handle : List String → String
     match decodeFault (kvD toks "fault" "none"), decodeExchange toks with
     | some f, some ex => encodeObs (clientStream f ex)
     | _, _ => "bad-op"
+  | "hstream" :: toks =>
+    match decodeFault (kvD toks "fault" "none"), decodeExchange toks with
+    | some f, some ex => encodeObs (handlerStream f ex)
+    | _, _ => "bad-op"
+  | ["label", a] =>
+    match bytesOfHex a with
+    | some addr => hexOfBytes (addr2Host addr)
+    | none => "bad-op"
+  | ["utf8", h] =>
+    match bytesOfHex h with
+    | some l => ofBool (validUTF8 l)
+    | none => "bad-op"
   | "holds" :: toks =>
     match decodeExchange toks, decodeObs ((kvD toks "obs" "").splitOn ",") with
     | some ex, some o => if cleanOutcome ex o then "true" else s!"false {holdsReason ex o}"
